@@ -37,7 +37,10 @@ SPECIALS = [
     ".define segment { name", ".define segment { name = }", ".test", ".assert", ".trace(", ".trace()", ".text", ".text petscii", ".file", ".align",
     "* =", "*", "* = *", "a:", "a: a:", "a: {", ":", "::", "a.b:", "super:", "-:", "lda", "lda #", "lda (", "lda ($10", "lda ($10,", "lda ($10,x", "lda $10,",
     "lda #<", "lda #>", "lda #!", "lda #-", "lda super", "lda super.super.super.x", "lda a.", "lda .a", "lda a..b", "lda -", "lda +", "bne -", "bne +",
-    "x: .macro x() { x() }\nx()", ".macro m() { m() }\nm()", ".macro a() { b() }\n.macro b() { a() }\na()", ".loop 100000 { .loop 100000 { nop } }",
+    "x: .macro x() { x() }\nx()", ".macro m() { m() }\nm()", ".macro a() { b() }\n.macro b() { a() }\na()", ".loop 100000 { .loop 100000 { nop } }", ".loop 65536 { .loop 65536 { } }", ".loop 1048576 { }", ".loop 1048577 { }",
+    ".loop 9223372036854775807 { }", ".loop 100 { .loop 100 { .loop 200 { } } }", ".macro m() { m()\n m() }\nm()", ".macro a() { b()\n b() }\n.macro b() { a()\n a() }\na()",
+    ".macro m(n) { m(n + 1)\n m(n + 2) }\nm(0)", "s: { .macro m() { s.m()\n m()\n super.s.m() } }\ns.m()", ".loop 3 { .loop 1 << 40 { } }", ".macro m() { .loop 1 << 30 { } }",
+    ".if 0 { .loop 1 << 50 { } }", ".loop 2000 { .if index > 5 { .loop 2000 { } } }",
     ".loop 70000 { nop }", ".loop 10 { l: nop }", ".const a = a", ".const a = b\n.const b = a\n.byte a", ".var a = a + 1\n.byte a", "a: .byte b\nb: .byte a",
     "* = $ffff\nnop\nnop", "* = $10000\nnop", "* = $fffe\nlda $1234", ".segment \"default\" { .segment \"default\" { nop } }",
     ".if 0 { .define segment { name = \"z\" } }\n.segment \"z\"\nnop", ".macro m() { .if 0 { nop } }", ".macro m(a) { .if a { nop } else { brk } }",
@@ -117,6 +120,16 @@ IMPORT_GRAPHS = [
 ]
 
 
+# origins whose inputs are small hand-written programs: none of them needs more than a few thousand statements per pass
+CURATED = {"int-arg", "name-arg", "special", "import-graph", "repo-source", "doubling-chain"}
+WORK_CAP = 5_000_000          # random inputs (a hit is inconclusive)
+CURATED_WORK_CAP = 4_000_000    # hand-written small inputs (a hit is a violation): loop budget 2^20 x at most 3 statements
+RECURSION_WORK_CAP = 20_000     # the self-invoking macro specials: the depth limit ends them after a few hundred statements
+
+
+RECURSIVE_MACROS = (".macro m() { m()", ".macro a() { b()", ".macro m(n) { m(n", "s: { .macro m() { s.m()", "x: .macro x() { x()")
+
+
 def check_response(acc, r, files, origin):
     """Applies the C06 oracle to one full probe response."""
     acc.evaluations += 1
@@ -176,6 +189,17 @@ def check_response(acc, r, files, origin):
         if "panic" in c:
             panic(stage, c["panic"])
             continue
+        if "work_cap_exceeded" in c:
+            # H3: more statements emitted in one pass than the (generous) cap - a logical step count, not a timeout
+            cls = origin_class(origin)
+            if cls in CURATED:
+                sig = "work-explosion|%s|%s" % (stage, "macro-doubling-chain" if "doubling-chain" in origin else cls)
+                acc.violation(sig, "more than %d statements emitted in one pass of %s for the %d-byte input %s" % (
+                    c["work_cap_exceeded"], stage, sum(len(t) for t in files.values()), origin[:60]), dict(witness, stage=stage))
+            else:
+                acc.inconc("work cap (%d statements in one pass) exceeded by a random input: %s" % (c["work_cap_exceeded"], origin[:60]))
+            continue
+        acc.cover("work_per_pass_log10", len(str(c.get("work", 0))))
         check_diags(stage, c.get("diags", []))
         ps = c.get("passes", {})
         acc.cover("pass_counts", min(ps.get("n", 0), 30))
@@ -203,22 +227,25 @@ def origin_class(origin):
 
 def shard(idx, n, seed, tier, params):
     acc = Acc()
-    probe = Probe(timeout=20)
+    probe = Probe(timeout=150)
     rng = rng_for(seed, "c06", idx)
     t_end = time.time() + params["budget"]
     sources = corpus.repo_sources() + corpus.doc_snippets() + corpus.test_snippets()
     fragments = [t for _, t in sources] + corpus.SHORT_PROGRAMS
 
     def run(files, origin, main="main.asm"):
-        r = probe.ask({"files": files, "main": main, "ops": OPS, "opts": {"pass_cap": 1500}})
+        cap = CURATED_WORK_CAP if origin_class(origin) in CURATED else WORK_CAP
+        if origin_class(origin) == "doubling-chain":
+            cap = 200_000
+        elif origin_class(origin) == "special" and any(files["main.asm"].lstrip("nop\nl: {").startswith(t) for t in RECURSIVE_MACROS):
+            cap = RECURSION_WORK_CAP
+        r = probe.ask({"files": files, "main": main, "ops": OPS, "opts": {"pass_cap": 1500, "work_cap": cap}})
         check_response(acc, r, files, origin)
         return r
 
     jobs = []
     for t in TEMPLATES:
         for v in INTS:
-            if ".loop {v}" in t and len(v) > 8 and v not in ("9223372036854775807",) and tier != "thorough":
-                continue  # `.loop <huge>` spins in pass 0 (hang suspect, watchdog = inconclusive): one representative in quick
             jobs.append(({"main.asm": t.format(v=v)}, "int-arg"))
     for t in NAME_TEMPLATES:
         for v in NAMES:
@@ -230,6 +257,9 @@ def shard(idx, n, seed, tier, params):
             jobs.append(({"main.asm": "l: {\n" + s + "\n}"}, "special"))
     for g in IMPORT_GRAPHS:
         jobs.append((g, "import-graph"))
+    # a chain of macros that each invoke the previous one twice: 2^24 expansions, although the output is full after 2^16
+    jobs.append(({"main.asm": ".macro m0() { nop }\n" + "".join(".macro m%d() { m%d()\n m%d() }\n" % (i, i - 1, i - 1) for i in range(1, 25)) + "m24()"},
+                 "doubling-chain"))
     for name, text in sources:
         jobs.append(({"main.asm": text}, "repo-source"))
     jobs = [j for i, j in enumerate(jobs) if i % n == idx]
@@ -303,6 +333,9 @@ def cli_slice(acc):
     cases.append(("toml-bytes0", {"main.asm": ".byte 1,2,3"}, 'toml:[build]\nlisting = true\n[formatting]\nlisting.num-bytes-per-line = 0\n'))
     cases.append(("toml-target-is-file", {"main.asm": "nop", "target": "x"}, None))
     cases.append(("oscillating", {"main.asm": "a: {\n bne +\n" + " lda #1\n" * 66 + " b: {\n  bne +\n" + "  lda #1\n" * 64 + " }\n nop\n}\n"}, None))
+    cases.append(("macro-recursion-twice", {"main.asm": ".macro m() { m()\n m() }\nm()"}, None))
+    cases.append(("huge-loop", {"main.asm": ".loop 9223372036854775807 { }\n.loop 65536 { .loop 65536 { } }"}, None))
+    cases.append(("deep-parens", {"main.asm": "lda " + "(" * 40 + "1\n.byte " + "m(" * 40 + "1"}, None))
     for name, files, extra in cases:
         toml = extra[5:] if isinstance(extra, str) and extra.startswith("toml:") else ""
         with TempProject(files, toml) as tp:
@@ -310,11 +343,14 @@ def cli_slice(acc):
                 os.symlink(extra[1], os.path.join(tp.dir, extra[0]))
             for cmd in (["build"], ["format"], ["test"]):
                 acc.evaluations += 1
-                r = run_mos(["--no-color", "-e", "Short"] + cmd, tp.dir, timeout=60)
+                r = run_mos(["--no-color", "-e", "Short"] + cmd, tp.dir, timeout=120,
+                            env={"MOS_VERIF_WORK": str(RECURSION_WORK_CAP if name.startswith("macro-recursion") else CURATED_WORK_CAP)})
                 acc.count("cli." + cmd[0])
                 w = {"case": name, "cmd": cmd, "files": {k: repr(v)[:300] for k, v in files.items()}, "rc": r["rc"], "stdout": r["out"][-400:], "stderr": r["err"][-600:]}
                 if r["timeout"]:
                     acc.inconc("cli watchdog on %s %s" % (name, cmd))
+                elif r["rc"] == 96:
+                    acc.violation("work-explosion|cli|%s" % name, "mos %s: %s" % (cmd[0], r["err"].strip()[-120:]), w)
                 elif r["rc"] == 97:
                     acc.violation("nonterminating|cli|%s" % name, "mos %s: pass loop never ends (%s)" % (cmd[0], r["err"].strip()[-80:]), w)
                 elif r["rc"] == 101 or (r["rc"] is not None and r["rc"] < 0) or r["rc"] == 134:
